@@ -123,6 +123,9 @@ class CryptographyBinding(NativeKeyBinding, metaclass=ABCMeta):
             encoding: Literal["PEM", "DER"] | None = None,
             private: bool | None = False,
             password: Any | None = None) -> bytes:
+        if private is not None:
+            # a yes or a no, whatever object says it: ``private=0`` is not "the default"
+            private = bool(private)
         if private is True:
             return dump_pem_key(key.private_key, encoding, private, password)
         elif private is False:
